@@ -252,6 +252,11 @@ class FactBase:
         # Every rule sees the *inlined view* (vlint.inline): helpers that the reference tree does not have and closure
         # combinators are expanded into their callers, so that moving logic in or out of a helper, or rewriting a
         # match with map_or/is_some_and/any, does not change the analysed shape.  Originals stay in orig_fns.
+        if os.environ.get("VERIF_NO_CANON") != "1":
+            from .canon import canonicalise
+            self.fn_renames, self.field_renames = canonicalise(self, self.fns)
+        else:
+            self.fn_renames, self.field_renames = {}, {}
         self.orig_fns = dict(self.fns)
         if os.environ.get("VERIF_NO_INLINE") != "1":
             from .inline import Inliner, default_policy
